@@ -459,7 +459,7 @@ def run(ctx: Ctx):
 
     rng = ctx.rng.fork("c04")
     units = _build_units(ctx, rng)
-    n_workers = int(os.environ.get("C04_WORKERS", "0") or 0) or (8 if ctx.thorough else 4)
+    n_workers = int(os.environ.get("C04_WORKERS", "0") or 0) or (12 if ctx.thorough else 4)
     n_workers = max(1, min(n_workers, len(units), (os.cpu_count() or 2)))
     ctx.cov["units"] = len(units)
     ctx.cov["worker_processes"] = n_workers
@@ -793,7 +793,7 @@ def _sched_units(ctx: Ctx, rng: Rng) -> List[dict]:
         big = n > 8
         if big and not ctx.thorough:
             # uc7_multiple_attack_variants (20 entries): quick goes up to the first entry that repeats a file combination
-            units.append({"kind": "sched", "label": f"shipped:{name}[first-repeat]", "dir": name, "episodes": 4, "only": [1, 3, 4], "steps": steps,
+            units.append({"kind": "sched", "label": f"shipped:{name}[first-repeat]", "dir": name, "episodes": 3, "only": [3], "steps": steps,
                           "rng": rng.fork(name), "weight": 20})
         else:
             units.append({"kind": "sched", "label": f"shipped:{name}", "dir": name, "episodes": n + 2, "only": None, "steps": steps,
